@@ -473,6 +473,13 @@ func c08Exec(ctx *vk.Ctx, c c08Case) error {
 			fmt.Printf("DEBUG %s %s: %v\n%s\n", label, outcome, r.Error, trimLog(r.Log))
 		}
 		if r.GasWanted == 0 {
+			// The signer could not pass the ante handler (typically: earlier transactions of this
+			// case legitimately moved its own coins away and it cannot pay the fee any more). An
+			// ante rejection has no effects (that is C15's subject); the history ends here.
+			ctx.Class("ante-rejected-ends-history")
+			if strings.Contains(fmt.Sprint(r.Error), "insufficient funds") || strings.Contains(fmt.Sprint(r.Error), "insufficient coins") {
+				break
+			}
 			return fmt.Errorf("harness: tx %d rejected by the ante handler: %v", i, r.Error)
 		}
 		if err := w.judge(i, tx, k, ok, declared, before, after); err != nil {
